@@ -2,7 +2,7 @@ SPECIFICATION Spec
 CONSTANTS N = 2 MaxCalls = 2
 Menu = {"marshal", "bytes", "struct"}
 Copies = {"json", "marshal", "bytes", "parse", "struct"}
-LockedLookup = TRUE PreRegistered = TRUE ExclusivePool = TRUE Gran = "fine"
+LockedLookup = TRUE PreRegistered = TRUE ExclusivePool = TRUE Scratch = "percall" Gran = "fine"
 INVARIANTS Exclusive BufferIsolation NoUnlockedWriteRead SequentialEquivalence
 VIEW DesignView
 CHECK_DEADLOCK FALSE
